@@ -88,20 +88,20 @@ Print Assumptions {pid}_mixed.
 
 def disk_safety(pid, cls):
     e = "err_" + cls
-    return f"""(* DiskRevolve and PeriodicDiskRevolve: every N, every RAM count >= 1, every cost vector; budgets RAM = snapshots_in_ram, DISK unbounded.
+    return f"""(* DiskRevolve and PeriodicDiskRevolve: the whole documented domain -- every N >= 1, snapshots_in_ram >= 0 (>= 1 when N >= 2), every cost vector; budgets RAM = snapshots_in_ram, DISK unbounded.
    The monitor's only possible verdict other than "no error" is E_leftover at the final EndReverse (class C04: the open finding
    D8, see C04_disk_revolve_refuted), so no error of THIS property's class is ever reported, and nothing raises *)
-Theorem {pid}_disk_revolve : forall (N ram disk uf ub wd rd : Z) (k : nat), 1 <= N -> 1 <= ram ->
+Theorem {pid}_disk_revolve : forall (N ram disk uf ub wd rd : Z) (k : nat), 1 <= N -> 0 <= ram -> (2 <= N -> 1 <= ram) ->
   exists o0 m ls, run_case (PRev RevConv.KDiskRevolve N ram disk uf ub wd rd) (DiskRun.disk_xparams N ram) (repeat Next k) = Ok (o0, m, ls) /\\ no_err {e} m /\\ no_raise ls.
 Proof.
-  intros N ram disk uf ub wd rd k H1 H2. destruct (DiskRun.disk_revolve_run N ram disk uf ub wd rd k H1 H2) as (o0 & m & ls & E & Hl & Hm).
+  intros N ram disk uf ub wd rd k H1 H2 H2'. destruct (DiskRun.disk_revolve_run N ram disk uf ub wd rd k H1 H2 H2') as (o0 & m & ls & E & Hl & Hm).
   exists o0, m, ls. split; [exact E|]. split; [apply (DiskRun.leftover_no_err _ m Hm); intros []|exact Hl].
 Qed.
 Print Assumptions {pid}_disk_revolve.
-Theorem {pid}_periodic_disk_revolve : forall (N ram disk uf ub wd rd : Z) (k : nat), 1 <= N -> 1 <= ram ->
+Theorem {pid}_periodic_disk_revolve : forall (N ram disk uf ub wd rd : Z) (k : nat), 1 <= N -> 0 <= ram -> (2 <= N -> 1 <= ram) ->
   exists o0 m ls, run_case (PRev RevConv.KPeriodic N ram disk uf ub wd rd) (DiskRun.disk_xparams N ram) (repeat Next k) = Ok (o0, m, ls) /\\ no_err {e} m /\\ no_raise ls.
 Proof.
-  intros N ram disk uf ub wd rd k H1 H2. destruct (DiskRun.periodic_run N ram disk uf ub wd rd k H1 H2) as (o0 & m & ls & E & Hl & Hm).
+  intros N ram disk uf ub wd rd k H1 H2 H2'. destruct (DiskRun.periodic_run N ram disk uf ub wd rd k H1 H2 H2') as (o0 & m & ls & E & Hl & Hm).
   exists o0, m, ls. split; [exact E|]. split; [apply (DiskRun.leftover_no_err _ m Hm); intros []|exact Hl].
 Qed.
 Print Assumptions {pid}_periodic_disk_revolve.
@@ -110,13 +110,13 @@ Print Assumptions {pid}_periodic_disk_revolve.
 
 def hrev_safety(pid, cls):
     e = "err_" + cls
-    return f"""(* HRevolve (two levels): every N, every RAM count >= 1, every disk count >= 0, every cost vector (the constructor's dynamic
+    return f"""(* HRevolve (two levels): the whole documented domain -- every N >= 1, snapshots_in_ram >= 0 (>= 1 when N >= 2), snapshots_on_disk >= 0, every cost vector (the constructor's dynamic
    program and recursion are proved total: HRevTotal); budgets RAM = snapshots_in_ram, DISK unbounded (the DISK budget itself:
    C03_hrevolve_refuted).  As for DiskRevolve the only verdict other than "no error" is E_leftover at the final EndReverse (D8) *)
-Theorem {pid}_hrevolve : forall (N ram disk uf ub wd rd : Z) (k : nat), 1 <= N -> 1 <= ram -> 0 <= disk ->
+Theorem {pid}_hrevolve : forall (N ram disk uf ub wd rd : Z) (k : nat), 1 <= N -> 0 <= ram -> (2 <= N -> 1 <= ram) -> 0 <= disk ->
   exists o0 m ls, run_case (PRev RevConv.KHRevolve N ram disk uf ub wd rd) (DiskRun.disk_xparams N ram) (repeat Next k) = Ok (o0, m, ls) /\\ no_err {e} m /\\ no_raise ls.
 Proof.
-  intros N ram disk uf ub wd rd k H1 H2 H3. destruct (HRevTop.hrevolve_run_total N ram disk uf ub wd rd k H1 H2 H3) as (o0 & m & ls & E & Hl & Hm).
+  intros N ram disk uf ub wd rd k H1 H2 H2' H3. destruct (HRevTop.hrevolve_run_total N ram disk uf ub wd rd k H1 H2 H2' H3) as (o0 & m & ls & E & Hl & Hm).
   exists o0, m, ls. split; [exact E|]. split; [apply (DiskRun.leftover_no_err _ m Hm); intros []|exact Hl].
 Qed.
 Print Assumptions {pid}_hrevolve.
@@ -153,11 +153,11 @@ for pid, cls in [('C01','C01'),('C02','C02'),('C03','C03'),('C04','C04'),('C08',
     else:
         body += '''(* DiskRevolve / PeriodicDiskRevolve: everything but this property's own error class is excluded -- the verdict is "no error" or
    E_leftover at the final EndReverse, and nothing raises (for E_leftover itself see the *_refuted theorems below) *)
-Theorem C04_disk_revolve_only_leftover_partial : forall (N ram disk uf ub wd rd : Z) (k : nat), 1 <= N -> 1 <= ram ->
+Theorem C04_disk_revolve_only_leftover_partial : forall (N ram disk uf ub wd rd : Z) (k : nat), 1 <= N -> 0 <= ram -> (2 <= N -> 1 <= ram) ->
   exists o0 m ls, run_case (PRev RevConv.KDiskRevolve N ram disk uf ub wd rd) (DiskRun.disk_xparams N ram) (repeat Next k) = Ok (o0, m, ls) /\\ no_raise ls /\\ DiskBridge3.leftover_or_ok m.
 Proof. exact DiskRun.disk_revolve_run. Qed.
 Print Assumptions C04_disk_revolve_only_leftover_partial.
-Theorem C04_hrevolve_only_leftover_partial : forall (N ram disk uf ub wd rd : Z) (k : nat), 1 <= N -> 1 <= ram -> 0 <= disk ->
+Theorem C04_hrevolve_only_leftover_partial : forall (N ram disk uf ub wd rd : Z) (k : nat), 1 <= N -> 0 <= ram -> (2 <= N -> 1 <= ram) -> 0 <= disk ->
   exists o0 m ls, run_case (PRev RevConv.KHRevolve N ram disk uf ub wd rd) (DiskRun.disk_xparams N ram) (repeat Next k) = Ok (o0, m, ls) /\\ no_raise ls /\\ DiskBridge3.leftover_or_ok m.
 Proof. exact HRevTop.hrevolve_run_total. Qed.
 Print Assumptions C04_hrevolve_only_leftover_partial.
@@ -315,15 +315,15 @@ Theorem C17_revolve_complete : forall (N ram disk uf ub wd rd : Z) (k : nat), 1 
   exists o0 m ls, run_case (PRev RevConv.KRevolve N ram disk uf ub wd rd) (RevBridge4.rev_xparams N ram) (repeat Next k) = Ok (o0, m, ls) /\\ mon_ok m /\\ no_raise ls.
 Proof. exact RevolveRun.revolve_run. Qed.
 Print Assumptions C17_revolve_complete.
-Theorem C17_disk_revolve_complete : forall (N ram disk uf ub wd rd : Z) (k : nat), 1 <= N -> 1 <= ram ->
+Theorem C17_disk_revolve_complete : forall (N ram disk uf ub wd rd : Z) (k : nat), 1 <= N -> 0 <= ram -> (2 <= N -> 1 <= ram) ->
   exists o0 m ls, run_case (PRev RevConv.KDiskRevolve N ram disk uf ub wd rd) (DiskRun.disk_xparams N ram) (repeat Next k) = Ok (o0, m, ls) /\\ no_raise ls /\\ DiskBridge3.leftover_or_ok m.
 Proof. exact DiskRun.disk_revolve_run. Qed.
 Print Assumptions C17_disk_revolve_complete.
-Theorem C17_periodic_complete : forall (N ram disk uf ub wd rd : Z) (k : nat), 1 <= N -> 1 <= ram ->
+Theorem C17_periodic_complete : forall (N ram disk uf ub wd rd : Z) (k : nat), 1 <= N -> 0 <= ram -> (2 <= N -> 1 <= ram) ->
   exists o0 m ls, run_case (PRev RevConv.KPeriodic N ram disk uf ub wd rd) (DiskRun.disk_xparams N ram) (repeat Next k) = Ok (o0, m, ls) /\\ no_raise ls /\\ DiskBridge3.leftover_or_ok m.
 Proof. exact DiskRun.periodic_run. Qed.
 Print Assumptions C17_periodic_complete.
-Theorem C17_hrevolve_complete : forall (N ram disk uf ub wd rd : Z) (k : nat), 1 <= N -> 1 <= ram -> 0 <= disk ->
+Theorem C17_hrevolve_complete : forall (N ram disk uf ub wd rd : Z) (k : nat), 1 <= N -> 0 <= ram -> (2 <= N -> 1 <= ram) -> 0 <= disk ->
   exists o0 m ls, run_case (PRev RevConv.KHRevolve N ram disk uf ub wd rd) (DiskRun.disk_xparams N ram) (repeat Next k) = Ok (o0, m, ls) /\\ no_raise ls /\\ DiskBridge3.leftover_or_ok m.
 Proof. exact HRevTop.hrevolve_run_total. Qed.
 Print Assumptions C17_hrevolve_complete.
@@ -347,7 +347,7 @@ mk('C17', ['NAdv','AllocProofs','InvalidProofs','RevConv','RevBridge4','RevolveR
    lifted('C17_periodic_top_total','PeriodGen','periodic_top_total','the PeriodicDiskRevolve op-list generator never fails on the domain, and its period is mxrr'),
    lifted('C17_hrevolve_total','HRevTotal','hrevolve_total','the HRevolve op-list generator never fails on the domain: get_hopt_table never indexes out of range, hrevolve_aux is never called without a slot, the recursion fuel suffices'),
    lifted('C17_hopt_table_total','HRevTotal','hopt_table_total','get_hopt_table (K = 2) returns, with tables of the right dimensions whose column m = 0 of optp[1] is infinite from l = 2 on'),
-   lifted('C17_revolve_family_rejects_partial','InvalidProofs','revolve_rejects','PARTIAL (Revolve family): max_n < 1 or no RAM unit for max_n > 1 is an exception at construction; that valid tuples always yield a complete stream is proved for Revolve, DiskRevolve, PeriodicDiskRevolve, HRevolve (C17_*_complete); PARTIAL only in that snapshots_in_ram = 0 with max_n = 1 is not covered for the disk classes (correspondence + oracle)')])
+   lifted('C17_revolve_family_rejects','InvalidProofs','revolve_rejects','Revolve family: max_n < 1 or no RAM unit for max_n > 1 is an exception at construction; that valid tuples always yield a complete stream is proved for Revolve, DiskRevolve, PeriodicDiskRevolve, HRevolve (C17_*_complete)')])
 C18_runs = safety('C18','C18','') + disk_safety('C18','C18') + hrev_safety('C18','C18')
 mk('C18', ['Repr','Ops','RevConv','RevBridge4','RevolveRun','DiskRun','OnlineWF','HRevRun','HRevTop','TLWF'], [C18_runs, lifted('C18_basic_wf_every_history','OnlineWF','basic_wf_every_history','NoneCheckpointSchedule, SingleMemoryStorageSchedule, SingleDiskStorageSchedule under EVERY history (requests, valid or rejected finalize calls, Run loops, in any order and number; any executor parameters): every yielded action is well formed (wf_action: the E_malformed requirements of the executor)'), lifted('C18_twolevel_wf_every_history','TLWF','twolevel_wf_every_history','TwoLevelCheckpointSchedule (period >= 1, binomial_snapshots >= 0, binomial storage RAM or DISK, both trajectories) under EVERY history: every yielded action is well formed -- an accepted finalize(k), wherever it comes, puts the object in the state of the canonical run for max_n = k'), lifted('C18_wf_not_malformed','OnlineWF','wf_not_malformed','wf_action is exactly what the executor needs not to report E_malformed'), lifted('C18_z_roundtrip','Repr','z_roundtrip','decimal printing of integers parses back')])
 mk('C19', ['PeriodProofs','PeriodShape'], [lifted('C19_periodic_shape','PeriodShape','periodic_shape','the whole operation sequence, every l = max_n - 1 >= 0 and cm >= 1: sweep ++ revolve(last segment) ++ (Read_disk + revolve(one period)) per disk checkpoint, last first; k disk checkpoints, written exactly while more than mx steps remain; the pieces come from the memory-only generator `revolve` on the opt_0 table (the generator of class Revolve: C07) and contain no disk operation; hence disk writes only in the sweep at 0, mx, ..., (k-1) mx, none afterwards, and each disk checkpoint is read exactly once'), lifted('C19_periodic_sweep_writes','PeriodProofs','periodic_sweep_writes','disk writes of the forward sweep are exactly at 0, m, 2m, ... while more than m steps remain'),
